@@ -89,6 +89,7 @@ type Peer struct {
 	mu      sync.Mutex
 	conns   []*ConnLog
 	reqs    []*RecordedReq
+	trimmed int
 	wg      sync.WaitGroup
 	closed  atomic.Bool
 	live    map[net.Conn]struct{}
@@ -182,6 +183,28 @@ func (p *Peer) Record(r *RecordedReq) {
 	p.mu.Unlock()
 }
 
+// RequestCount is the number of requests recorded since the peer started
+// (monotonic, unaffected by TrimRequests).
+func (p *Peer) RequestCount() int {
+	p.mu.Lock()
+	defer p.mu.Unlock()
+	return p.trimmed + len(p.reqs)
+}
+
+// RequestsSince returns the requests recorded after the first n.
+func (p *Peer) RequestsSince(n int) []*RecordedReq {
+	p.mu.Lock()
+	defer p.mu.Unlock()
+	i := n - p.trimmed
+	if i < 0 {
+		i = 0
+	}
+	if i > len(p.reqs) {
+		return nil
+	}
+	return append([]*RecordedReq(nil), p.reqs[i:]...)
+}
+
 func (p *Peer) Requests() []*RecordedReq {
 	p.mu.Lock()
 	defer p.mu.Unlock()
@@ -223,6 +246,11 @@ func OKResponse(body string) []byte {
 func HTTPHandler(resp Responder, onConnect func(pc *PeerConn, r *RecordedReq)) func(*PeerConn) {
 	return func(pc *PeerConn) {
 		for seq := 0; ; seq++ {
+			// anything that cannot start an HTTP request (a TLS hello, a SOCKS greeting) ends the connection at once
+			if b, err := pc.Br.Peek(1); err == nil && (b[0] < 'A' || b[0] > 'Z') {
+				pc.Peer.Record(&RecordedReq{Conn: pc.Index, Seq: seq, Err: malformed("not HTTP: first byte %#x", b[0])})
+				return
+			}
 			m, err := ReadRequest(pc.Br)
 			if err != nil && m == nil {
 				if err != io.EOF {
@@ -330,7 +358,7 @@ func Socks5Handler(requireAuth bool, record func(Socks5Req), dialAddr func(targe
 		hasUP := bytes.IndexByte(methods, 2) >= 0
 		hasNone := bytes.IndexByte(methods, 0) >= 0
 		switch {
-		case requireAuth && hasUP, !hasNone && hasUP:
+		case hasUP:
 			pc.Write([]byte{5, 2})
 			v := make([]byte, 2)
 			if _, err := io.ReadFull(br, v); err != nil || v[0] != 1 {
@@ -470,6 +498,7 @@ func FreeAddr(ip string) string {
 func (p *Peer) TrimRequests(n int) {
 	p.mu.Lock()
 	if len(p.reqs) > n {
+		p.trimmed += len(p.reqs) - n
 		p.reqs = append([]*RecordedReq(nil), p.reqs[len(p.reqs)-n:]...)
 	}
 	if len(p.conns) > 4*n {
